@@ -135,6 +135,9 @@ def Dialect.intervalQuotesUnit : Option Dialect → Bool
   | some .oracle | some .mysql => false     -- INTERVAL '{expr}' {unit}
   | _ => true                                -- INTERVAL '{expr} {unit}'
 
+/-- `Interval.trim_pattern.pattern`, the regular expression that `intervalTrim` implements -/
+def trimPatternText : Str := "(^0+\\.)|(\\.0+$)|(^[0\\-.: ]+[\\-: ])|([\\-:. ][0\\-.: ]+$)".toList
+
 /-- characters removed by `trim_pattern` alternatives 3 and 4 -/
 def trimSet (ch : Char) : Bool := ch = '0' || ch = '-' || ch = '.' || ch = ':' || ch = ' '
 def sepSet3 (ch : Char) : Bool := ch = '-' || ch = ':' || ch = ' '
